@@ -598,6 +598,29 @@ def exec_seq(sess: Session, op: dict, step: int) -> Effect:
     sp_a = span_in(_index(after), owner)
     new_item_ids = {id(x) for x in raw_after}
     removed_items = [x for x in raw_before if id(x) not in new_item_ids]
+    if kind in ('pop', 'delitem', 'delslice', 'remove', 'discard', 'clear') and exp is not None:
+        # which children a Python list would have dropped (positions of `cur` missing from `exp`), mapped to the
+        # raw items behind those positions: every other item is a sibling that must keep its text
+        if is_view:
+            raw_t, types_t, _ = view_filter(mname)
+            behind = [x for x in raw_before if isinstance(x, types_t)]
+        else:
+            behind = raw_before
+        if len(behind) == len(cur):
+            gone, j = [], 0
+            for i, x in enumerate(cur):
+                if j < len(exp) and same_seq([x], [exp[j]]):
+                    j += 1
+                else:
+                    gone.append(i)
+            ambiguous = any(not isinstance(cur[i], models.RawModel) and any(same_seq([cur[i]], [y]) for y in exp) for i in gone)
+            if j == len(exp) and not ambiguous:
+                want = {id(behind[i]) for i in gone}
+                got_ids = {id(x) for x in removed_items}
+                if want != got_ids:
+                    lost = [x for x in removed_items if id(x) not in want]
+                    eff.v('C03', 'wrong_child_removed', step,
+                          f'{what}: a list drops position(s) {gone}; the document lost {_short(lost)} instead of / besides them')
     if kind not in ('pop',):
         zs = getattr(sess, 'zombies', None)
         if zs is None:
@@ -929,6 +952,19 @@ def _parser_like_blocks(root: Any) -> bool:
     return True
 
 
+def _skip(succ: Any, t: Any, pred: Any) -> Any:
+    """Steps over tokens satisfying pred.  A store whose navigation does not make progress (get_prev(t) is t)
+    must not hang the harness: the walk gives up and the store invariants report the corruption."""
+    seen = 0
+    while t is not None and pred(t):
+        nxt = succ(t)
+        seen += 1
+        if nxt is t or seen > 100000:
+            raise Unresolvable('token navigation does not make progress')
+        t = nxt
+    return t
+
+
 def _adjacent_token(obj: Any, side: str) -> Any:
     """The token exactly one newline away from the model's content edge (zero-width tokens aside),
     which is where claim_*_comment looks; None if the edge is not followed by a single newline."""
@@ -938,15 +974,10 @@ def _adjacent_token(obj: Any, side: str) -> Any:
         return None
     succ = st.get_prev if side == 'leading' else st.get_next
     edge = kids[0].first_token if side == 'leading' else kids[-1].last_token
-    t = succ(edge)
-    while t is not None and not t.raw_text:
-        t = succ(t)
+    t = _skip(succ, succ(edge), lambda x: not x.raw_text)
     if not isinstance(t, models.Newline) or t.raw_text.count('\n') != 1:
         return None
-    t = succ(t)
-    while t is not None and not t.raw_text:
-        t = succ(t)
-    return t
+    return _skip(succ, succ(t), lambda x: not x.raw_text)
 
 
 def _adjacent_over_placeholders(obj: Any, side: str) -> Any:
@@ -957,15 +988,10 @@ def _adjacent_over_placeholders(obj: Any, side: str) -> Any:
     if st is None:
         return None
     succ = st.get_prev if side == 'leading' else st.get_next
-    t = succ(obj.first_token if side == 'leading' else obj.last_token)
-    while isinstance(t, I.internal.Placeholder):
-        t = succ(t)
+    t = _skip(succ, succ(obj.first_token if side == 'leading' else obj.last_token), lambda x: isinstance(x, I.internal.Placeholder))
     if not isinstance(t, models.Newline) or t.raw_text.count('\n') != 1:
         return None
-    t = succ(t)
-    while isinstance(t, I.internal.Placeholder):
-        t = succ(t)
-    return t
+    return _skip(succ, succ(t), lambda x: isinstance(x, I.internal.Placeholder))
 
 
 def _claimable_layout(obj: Any, comment: Any, side: str) -> bool:
